@@ -1049,6 +1049,8 @@ static void report(const char* kind, const Node& n, const Node* pre, int p, cons
   rec["what"] = Value(what);
   const QMat& ref = pre ? pre->A : n.A;
   rec["shape"] = Value(shapeClass(ref.r, ref.c));
+  const QMat& refB = pre ? pre->B : n.B;
+  rec["shapeB"] = Value(shapeClass(refB.r, refB.c));
   if (!n.h.empty())
   {
     const OpRec& o = n.h.back();
@@ -1523,7 +1525,8 @@ static void inflate(int nodeIdx, const Node& n, const Node& pn, int p, const std
       // the generic element-by-element implementations cost n^3 / n^4 virtual calls: inflated up to a moderate size only
       bool generic = routes[k].name.rfind("mixed ", 0) == 0 || routes[k].name.find("AMatrix::prodNorm") != std::string::npos ||
                      routes[k].name.find("normMatrix") != std::string::npos;
-      if (generic && maxdim > 40) continue;
+      bool quartic = generic && o.op == "ProdNormMatMat";   // n^4 virtual calls
+      if (generic && maxdim > (quartic ? 22 : 40)) continue;
       if (!enter(nodeIdx, p, (int)k, 1, extra, o.op + "/" + routes[k].name)) continue;
       Regs* g = pre.clone();
       Outcome out;
